@@ -323,7 +323,7 @@ class _Ctx:
 
 def execute(plan):
     env = plan['env']
-    w = W.World(plan['seed'], tz=env['tz'], clock0=env['clock0'], clock_mode='frozen', cache=env['cache'])
+    w = W.World(plan['seed'], tz=env['tz'], clock0=env['clock0'], clock_mode='frozen', cache=env['cache'], max_extent=env.get('max_extent'))
     ctx = _Ctx(plan, w)
     h = hashlib.blake2b(digest_size=16)
     accepted = 0
